@@ -64,6 +64,11 @@ def decoder_worker(
             break
         codec, encoded_frame = task
 
+        # an empty frame carries nothing to decode, and an empty packet would
+        # put the codec into draining mode
+        if not encoded_frame.data:
+            continue
+
         if codec.name != codec_name:
             decoder = get_decoder(codec)
             codec_name = codec.name
